@@ -5,7 +5,7 @@
    [sat G x v]: v assigns a bit to every wire, the input wires carry x and
    every live gate's equation holds.  [Inv x v G] = sat + every Zero/One
    annotation of a wire is right for v + cc.ZeroWire()/cc.OneWire() exist. *)
-From Coq Require Import List Bool Arith.
+From Coq Require Import List Bool Arith NArith.
 From Mpc Require Import Circuit.Circuit Circuit.Passes Circuit.PassesProof Circuit.PassesBFS
   Circuit.PassesIO Circuit.PassesTV Circuit.PassesInv Circuit.PassesPrune Circuit.PassesPanic
   Circuit.PassesExamples.
@@ -74,6 +74,16 @@ Theorem C09_gmw_sort :
     emission_ok G idf nw (ssort (gmw_less G) order).
 Proof. exact emission_ok_sorted. Qed.
 Print Assumptions C09_gmw_sort.
+
+(* The levels above are unbounded naturals: the sort key must preserve the
+   order of the BFS levels however deep the circuit is.  A level kept modulo
+   2^16 does not (refuted by the pair 65535 < 65536), which is why the harness
+   compiles dependent chains deeper than 65536 levels for the GMW target on
+   every run (oracle key c09:gmw-level-sort:depth>=65536). *)
+Theorem C09_level_wrap16_refuted :
+  exists a b : N, (a < b)%N /\ ~ ((a mod 65536) < (b mod 65536))%N.
+Proof. exact level_wrap16_not_monotone. Qed.
+Print Assumptions C09_level_wrap16_refuted.
 
 (* Compile's own traversal (input wires, FIFO queue of ready gates, outputs
    last), for every graph satisfying [cwf] (unassigned/unvisited, inputs and
